@@ -3,7 +3,7 @@ import ast
 
 from sa import astq
 from sa.astq import ev_setattr, ev_hook, ev_callattr, norm_text
-from sa.idioms import status_test, guarded, is_discarded, call_consumed
+from sa.idioms import status_test, guarded, is_discarded, call_consumed, reach_under
 from sa.project import dotted
 
 EXPLANATION = (    "Static ordering/guard facts the stop guarantee rests on, decided on the "
@@ -28,7 +28,7 @@ A = 'circus.arbiter:Arbiter.'
 
 
 def check(run, ctx):
-    run.each(ctx, [r1, r2, r3, r4, r5, r6, r7])
+    run.each(ctx, [r1, r2, r3, r4, r5, r6, r7, r8])
 
 
 def _yielded_call_nodes(ctx, f, target_keys):
@@ -187,6 +187,54 @@ def r7(run, ctx):
               path=ctx.path_text(f, path_under(cfg, cfg.entry, cfg.exit, alive, avoid=direct,
                                                labels_excluded=('exc', 'raise', 'reraise')) or []),
               construct='live child not terminated directly')
+
+
+def r8(run, ctx):
+    run.rule('R8', 'a stop/restart request acts on every watcher its name addresses')
+    # execute_watcher_start_stop_restart resolves the name (glob/regex) to a list; the
+    # single-watcher shortcut (watchers[0].stop()) is only right for a list of one - for more
+    # the request must fan out over all of them
+    from sa.idioms import ordering_assumption
+    f = ctx.fn('circus.commands.restart:execute_watcher_start_stop_restart')
+    cfg = ctx.cfg(f)
+    def deep(n):       # also inside lambdas handed to a helper
+        return ast.walk(n.ast) if n.ast is not None and n.kind in ('stmt', 'test') and \
+            not isinstance(n.ast, (ast.FunctionDef, ast.ClassDef)) else ()
+    firsts = [n for n in ctx.live_nodes(f) if any(
+        isinstance(x, ast.Subscript) and isinstance(x.value, ast.Name) and
+        astq.const_value(x.slice, None) == 0 and isinstance(x.ctx, ast.Load) for x in deep(n))]
+    lists = {x.value.id for n in firsts for x in deep(n)
+             if isinstance(x, ast.Subscript) and isinstance(x.value, ast.Name) and
+             astq.const_value(x.slice, None) == 0}
+    fan = [n for n in ctx.live_nodes(f) for c in n.calls()
+           if astq.kwarg(c, 'watcher_iter_func') is not None]
+    if not run.need('R8', fan, 'fan-out over the matched watchers (watcher_iter_func=...)', f,
+                    'a name matching several watchers is no longer handled for all of them'):
+        return
+    run.count('R8', len(firsts), 1, 'uses of the first matched watcher')
+
+    def is_len(e):
+        return isinstance(e, ast.Call) and dotted(e.func) == 'len' and len(e.args) == 1 and \
+            isinstance(e.args[0], ast.Name) and e.args[0].id in lists
+
+    def is_one(e):
+        return astq.const_value(e, None) == 1
+
+    def nonempty(e):      # `not watchers` is false for several matches
+        if isinstance(e, ast.Name) and e.id in lists:
+            return True
+        return None
+    from sa.idioms import combine
+    several = combine(ordering_assumption(is_len, is_one, '>'), nonempty)
+    r = reach_under(cfg, cfg.entry, several, labels_excluded=('exc', 'raise', 'reraise'))
+    for n in firsts:
+        run.check('R8', n.id not in r, 'the single-watcher shortcut is not taken when several '
+                  'watchers match', f, n.ast,
+                  'with several watchers matching the name only the first one is stopped / '
+                  'restarted: the request is answered ok while the others keep all their workers',
+                  construct='FIRST-MATCH-ONLY')
+    run.check('R8', any(x.id in r for x in fan), 'several matches reach the fan-out', f, fan[0].ast,
+              'several matching watchers never reach the fan-out')
 
 
 CORO_TARGETS = ['kill_process', 'kill_processes', '_stop', 'stop', '_stop_watchers',
